@@ -125,10 +125,48 @@ def _controls_case(n):
     return Case("%d_changes" % n, build, crosscheck=False)
 
 
+class _Obs:
+    def __init__(self, tag, log):
+        self.tag, self.log = tag, log
+
+    def update(self, subject):
+        self.log.append((self.tag, subject))
+
+
+def _drive_subject(subj, a, b, c):
+    # harness text: what the change tracker and the valve-source checker do with an action, then one notification
+    subj.subscribe(a)
+    subj.subscribe(b)
+    subj.subscribe(a)
+    subj.subscribe(c)
+    subj.unsubscribe(b)
+    subj.notify()
+
+
+def _subject_case():
+    def build(cx):
+        from wntr.network.controls import Subject
+        from wntr.utils.ordered_set import OrderedSet
+        log = []
+        a, b, c = _Obs("a", log), _Obs("b", log), _Obs("c", log)
+        subj = cx.obj(Subject, _observers=OrderedSet())
+        cx.target(_drive_subject, subj, a, b, c)
+
+        def post(out):
+            if not out.returned:
+                return []
+            return [("every_subscribed_observer_is_told_once_of_this_subject_the_unsubscribed_one_is_not",
+                     sorted(e[0] for e in log) == ["a", "c"] and all(e[1] is subj for e in log))]
+        cx.ensure(post)
+    return Case("three_observers_one_subscribed_twice_one_unsubscribed", build, crosscheck=False)
+
+
 CONTRACTS = [
     Contract("wntr.sim.models.utils:ModelUpdater.add/update", P, [_updater_case(w, iso) for iso in (False, True) for w in ("registered_pair", "other_attribute", "other_element", "unregistered")],
              interpret_always=(_drive_updater,), note="five registrations on two elements and two attributes (one duplicate); elements and functions are opaque objects"),
     Contract("wntr.sim.models.utils:Definition.update", P, [_definition_case()]),
+    Contract("wntr.network.controls:Subject.subscribe/unsubscribe/notify", P + ["C11"], [_subject_case()], interpret_always=(_drive_subject,),
+             note="the notification channel between an executed action and the change tracker / valve-source checker"),
     Contract("wntr.sim.hydraulics:update_model_for_controls", P, [_controls_case(0), _controls_case(1), _controls_case(3)],
              note="0, 1 and 3 reported changes",
              trusted=["ControlChangeTracker.get_changes(ref) lists the (element, attribute) pairs whose value differs from the reference point (own contract, c05_conditions.py)"]),
